@@ -177,7 +177,7 @@ const NAMES: &[&str] = &[
     "bus_drop_caught_up", "bus_drop_laggard", "bus_reattach", "graph_fan_in_1500", "graph_chain_1500", "graph_alternating_outputs",
     "graph_node_shapes",
     // round 3: inputs designed per data-dependent branch, entry points the coverage report listed as never reached
-    "rms_clamp", "rms_clamp_adaptors", "env_attack_release", "conv_ratio_steps", "conv_exhaustion", "sinc_priming", "clip_both_sides", "bounded_full_wrap", "bus_catch_up", "bus_finite_source", "windower_edges", "graph_node_edge_cases", "osc_shapes", "exhaustion_queries", "consume_parts", "fork_rc_schedules", "slice_all_forms", "frame_iters_mono", "sample_all_formats", "custom_int_types", "debug_fmt",
+    "rms_clamp", "rms_clamp_adaptors", "env_attack_release", "conv_ratio_steps", "conv_exhaustion", "sinc_priming", "clip_both_sides", "bounded_full_wrap", "bus_catch_up", "bus_finite_source", "windower_edges", "graph_node_edge_cases", "osc_shapes", "exhaustion_queries", "consume_parts", "fork_rc_schedules", "slice_all_forms", "frame_iters_mono", "sample_all_formats", "custom_int_types", "debug_fmt", "boxed_slice_forms",
 ];
 
 fn run(name: &str, k: usize, seed: u64, fam: u8) -> Vec<i64> {
@@ -743,6 +743,25 @@ fn run(name: &str, k: usize, seed: u64, fam: u8) -> Vec<i64> {
             assert!(a1 == a0, "boxed conversion touched the allocator");
             black_box(s.len());
         }),
+        "boxed_slice_forms" => measure(k, |i| {
+            // the remaining boxed forms (identity impls, free functions, trait methods): one Vec made by the scenario per
+            // iteration, every conversion in between must leave the allocator alone
+            use dasp_slice::{FromBoxedFrameSlice, FromBoxedSampleSlice, ToBoxedFrameSlice, ToBoxedSampleSlice};
+            let b: Box<[i16]> = vec![0i16; 4 * (1 + i % 5)].into_boxed_slice();
+            let a0 = snap();
+            let b: Box<[i16]> = slice::from_boxed_sample_slice(b).unwrap();
+            let b: Box<[i16]> = ToBoxedSampleSlice::to_boxed_sample_slice(b);
+            let f: Box<[[i16; 2]]> = slice::from_boxed_sample_slice(b).unwrap();
+            let f: Box<[[i16; 2]]> = slice::from_boxed_frame_slice(f);
+            let f: Box<[[i16; 2]]> = ToBoxedFrameSlice::to_boxed_frame_slice(f).unwrap();
+            let f: Box<[[i16; 2]]> = FromBoxedFrameSlice::from_boxed_frame_slice(f);
+            let s: Box<[i16]> = slice::from_boxed_frame_slice(f);
+            let g: Box<[[i16; 4]]> = FromBoxedSampleSlice::from_boxed_sample_slice(s).unwrap();
+            let s: Box<[i16]> = g.to_boxed_sample_slice();
+            let a1 = snap();
+            assert!(a1 == a0, "boxed conversion touched the allocator");
+            black_box(s.len());
+        }),
         "boxed_slice_fail" => measure(k, |i| {
             let b: Box<[i16]> = vec![0i16; 6 * (1 + i % 5) + 1].into_boxed_slice();
             let f: Option<Box<[[i16; 3]]>> = slice::to_boxed_frame_slice(b);
@@ -1147,8 +1166,8 @@ fn run(name: &str, k: usize, seed: u64, fam: u8) -> Vec<i64> {
             v
         }
         "sinc_priming" => {
-            // interpolate on a fresh, a partly primed and a fully primed sinc ring of several depths (odd and even
-            // lengths), at x = 0 and x = 1 exactly (the sin(a)/a limit arms) and in between; reset
+            // interpolate on a fresh, a partly primed and a fully primed sinc ring of several depths (even lengths:
+            // an odd length is a documented panic of Sinc::new), at x = 0 and x = 1 exactly (the sin(a)/a limit arms) and in between; reset
             use dasp_interpolate::Interpolator;
             fn go<S>(si: &mut Sinc<S>, i: usize, r: &mut R)
             where
@@ -1171,9 +1190,9 @@ fn run(name: &str, k: usize, seed: u64, fam: u8) -> Vec<i64> {
                 }
             }
             let mut s2 = Sinc::new(ring_buffer::Fixed::from([[0.0f32; 2]; 2]));
-            let mut s3 = Sinc::new(ring_buffer::Fixed::from([[0.0f32; 2]; 3]));
+            let mut s3 = Sinc::new(ring_buffer::Fixed::from([[0.0f32; 2]; 4]));
             let mut s8 = Sinc::new(ring_buffer::Fixed::from(vec![[0.0f32; 2]; 8]));
-            let mut s17 = Sinc::new(ring_buffer::Fixed::from(vec![[0.0f32; 2]; 17]));
+            let mut s17 = Sinc::new(ring_buffer::Fixed::from(vec![[0.0f32; 2]; 18]));
             measure(k, |i| {
                 go(&mut s2, i, &mut r);
                 go(&mut s3, i, &mut r);
@@ -1302,7 +1321,7 @@ fn run(name: &str, k: usize, seed: u64, fam: u8) -> Vec<i64> {
                 black_box((first, st.len()));
                 // read-only storage (&[T]): the operations that do not need SliceMut
                 let rd = ring_buffer::Bounded::from_raw_parts(i % 7, (i / 7) % 8, &ro[..]);
-                black_box((rd.len(), rd.get(i % 9).cloned(), rd.iter().count(), rd.slices().0.len(), rd[0]));
+                black_box((rd.len(), rd.get(i % 9).cloned(), rd.iter().count(), rd.slices().0.len(), if rd.len() > 0 { rd[rd.len() - 1] } else { 0 }));
                 let rf = ring_buffer::Fixed::from_raw_parts(i % 7, &ro[..]);
                 black_box((rf.len(), *rf.get(i), rf.iter().count(), rf.slices().1.len(), rf[i % 7]));
             });
@@ -1393,7 +1412,7 @@ fn run(name: &str, k: usize, seed: u64, fam: u8) -> Vec<i64> {
                     let mut chunks = 0usize;
                     while let Some(chunk) = w.next() {
                         chunks += 1;
-                        black_box(chunk.count());
+                        black_box(chunk.take(*bin + 2).count()); // a chunk is an endless iterator (the window phase cycles)
                         black_box(w.size_hint());
                         if chunks >= 40 {
                             break;
@@ -1406,7 +1425,7 @@ fn run(name: &str, k: usize, seed: u64, fam: u8) -> Vec<i64> {
                 let w2 = Windower::rectangle(&frames16[..(i % 17)], 1 + i % 6, i % 4);
                 black_box(w2.size_hint());
                 for chunk in w2.take(6) {
-                    black_box(chunk.last());
+                    black_box(chunk.take(9).last());
                 }
                 let mut wn = dasp_signal::window::Window::<[f64; 2], dasp_window::Hann>::new(1 + i % 9);
                 black_box((wn.next(), wn.next(), wn.nth(i % 20)));
@@ -1435,8 +1454,17 @@ fn run(name: &str, k: usize, seed: u64, fam: u8) -> Vec<i64> {
                     o.silence();
                 }
             }) as Box<dyn Fn(&[node::Input], &mut [Buffer])>))));
+            let mut wi = StackW { buf: [0; 2048], n: 0 };
+            let dbg = g.add_node(NodeData::new1(BoxedNode::new(Box::new(move |inputs: &[node::Input], out: &mut [Buffer]| {
+                use std::fmt::Write;
+                wi.n = 0;
+                let _ = write!(wi, "{:?}", inputs.get(0)); // Debug of an Input exists only inside a process call
+                out[0][0] = wi.n as f32;
+            }) as Box<dyn FnMut(&[node::Input], &mut [Buffer])>)));
             let out = g.add_node(NodeData::boxed2(node::Sum));
-            for n in [lonely_delay, dl, dl_many, fp, bx, dynfn].iter() {
+            g.add_edge(src, dbg, ());
+            let mut send_node = BoxedNodeSend::new(node::Pass);
+            for n in [lonely_delay, dl, dl_many, fp, bx, dynfn, dbg].iter() {
                 g.add_edge(*n, out, ());
             }
             g.add_edge(src, dl, ());
@@ -1465,6 +1493,12 @@ fn run(name: &str, k: usize, seed: u64, fam: u8) -> Vec<i64> {
                     use std::ops::{Deref, DerefMut};
                     black_box(g[out].node.deref() as *const _);
                     g[fp].node.deref_mut().process(&[], &mut bufs[..]);
+                    black_box(send_node.deref() as *const _);
+                    send_node.deref_mut().process(&[], &mut bufs[..]);
+                    // a boxed zero-sized node owns no heap block: converting it into the bare box and dropping that is free
+                    let b1: Box<dyn Node> = BoxedNode::new(node::Pass).into();
+                    let b2: Box<dyn Node + Send> = BoxedNodeSend::new(node::Sum).into();
+                    black_box((&*b1 as *const dyn Node, &*b2 as *const (dyn Node + Send)));
                 }
                 bufs[0][i % Buffer::LEN] = i as f32;
                 black_box((bufs[0] == bufs[1], bufs[1] == Buffer::SILENT, bufs[0].len()));
@@ -1685,6 +1719,18 @@ fn run(name: &str, k: usize, seed: u64, fam: u8) -> Vec<i64> {
                         black_box(s3.len());
                         let s4: &[i32] = slice::from_frame_slice(&fr[..]);
                         black_box(s4.len());
+                        // the identity forms (&[F] <-> &[F])
+                        {
+                            use dasp_slice::{FromFrameSlice, ToFrameSlice};
+                            let id1: &[[i32; 6]] = slice::from_frame_slice(&fr[..]);
+                            let id2: &[[i32; 6]] = FromFrameSlice::from_frame_slice(id1);
+                            let id3: Option<&[[i32; 6]]> = ToFrameSlice::to_frame_slice(id2);
+                            black_box(id3.map(|x| x.len()));
+                        }
+                        let id4: &mut [[i32; 6]] = slice::from_frame_slice_mut(&mut fr[..]);
+                        let id5: &mut [[i32; 6]] = FromFrameSliceMut::from_frame_slice_mut(id4);
+                        let id6: Option<&mut [[i32; 6]]> = ToFrameSliceMut::to_frame_slice_mut(id5);
+                        black_box(id6.map(|x| x.len()));
                     }
                 }
             });
@@ -1805,6 +1851,7 @@ fn run(name: &str, k: usize, seed: u64, fam: u8) -> Vec<i64> {
                 ops!(I48, i64, -a * 100_003, b);
                 black_box((-I11::new(a as i16).unwrap(), -I24::new(a as i32).unwrap(), -I48::new(-a).unwrap()));
                 black_box((I20::from(I11::new(5).unwrap()), I24::from(I20::new(9).unwrap()), I48::from(I24::new(-3).unwrap()), U24::from(U20::new(4).unwrap()), U48::from(U24::new(6).unwrap()), I48::from(i32::MIN), U48::from(u32::MAX), I24::from(i16::MIN), U24::from(255u8)));
+                black_box((I24::from(i32::MIN + i as i32), I24::from(i32::MAX - i as i32), U24::from(-5 - i as i32), I48::from(i64::MIN / 4), I11::from(-30000i16), U11::from(-1i16), I20::from(-(1 << 24)), U20::from(-3)));
             })
         }
         "debug_fmt" => {
@@ -1822,6 +1869,10 @@ fn run(name: &str, k: usize, seed: u64, fam: u8) -> Vec<i64> {
                 w.n = 0;
                 let _ = write!(w, "{:?}{:?}{:?}{:?}", rms, det, bounded, fixed);
                 let _ = write!(w, "{:?}{:?}{:?}{:?}", boxed, boxed_send, &buf[..(i % 8)], node::Pass);
+                if i % 4 == 0 {
+                    w.n = 0;
+                    let _ = write!(w, "{:?}", buf);
+                }
                 let _ = write!(w, "{:?}{:?}{:?}{:?}", I24::new(i as i32), dasp_peak::FullWave, node::Sum, node::SumBuffers);
                 black_box(w.n);
             });
